@@ -2,6 +2,7 @@ package props
 
 import (
 	"context"
+	"errors"
 	"encoding/json"
 	"fmt"
 	"os"
@@ -492,6 +493,13 @@ func runC06B(r *R) {
 	tokens := 1 + w.Draw(120)
 	shots := genShots(w, 10*time.Millisecond)
 	stalls := w.Draw(5) == 0
+	// in a third of the runs the caller cancels the run at a drawn instant
+	cancelAt := time.Duration(0)
+	if w.Draw(3) == 0 {
+		cancelAt = time.Duration(1+w.Draw(2000)) * time.Millisecond
+	}
+	cancelled := false
+	var cancelSeq uint64
 	sp.CloseReports = w.Draw(3) == 0
 	sp.CloseDur = []time.Duration{0, time.Millisecond, 300 * time.Millisecond}[w.Draw(3)]
 	r.Sample(map[string]any{"level": "B", "guns_report_while_closing": sp.CloseReports, "aggregator": sp.conf(), "instances": inst, "tokens": tokens, "shots": shots.String(), "stalls": stalls})
@@ -506,7 +514,18 @@ func runC06B(r *R) {
 		if err != nil {
 			panic(err)
 		}
-		runErr = e.eng.Run(context.Background())
+		ctx, cancel := context.WithCancel(context.Background())
+		defer cancel()
+		if cancelAt > 0 {
+			go func() {
+				time.Sleep(cancelAt)
+				cancelled = true
+				cancelSeq = simrt.Seq()
+				cancel()
+			}()
+		}
+		runErr = e.eng.Run(ctx)
+		// the pool is finished when the engine's background tasks have ended: everything reported until then is in the file
 		e.eng.Wait()
 		content, _ = e.disk.Content(sp.Path)
 	})
@@ -514,9 +533,16 @@ func runC06B(r *R) {
 	if res.Class != simrt.OK || r.Failed() || e == nil {
 		return
 	}
+	if cancelled && runErr != nil && droppedFrom(runErr) == 0 && errors.Is(runErr, context.Canceled) {
+		r.Note("B/cancelled-mid-run")
+		runErr = nil
+	}
 	byTag, nlines := parseOutput(r, sp.Kind, content, false)
-	reported := 0
+	reported, beforeCancel := 0, 0
 	for _, ev := range e.log.Snapshot() {
+		if (ev.Kind == "close-report" || ev.Kind == "shoot-out") && (!cancelled || ev.Seq < cancelSeq) {
+			beforeCancel++
+		}
 		if ev.Kind == "close-report" {
 			reported++
 			if len(byTag[fmt.Sprintf("i%d_close", ev.Inst)]) > 1 {
@@ -539,7 +565,13 @@ func runC06B(r *R) {
 		r.Fail("engine-run-error", "Engine.Run returned %q", runErr)
 		return
 	}
-	if nlines+dropped != reported {
+	if cancelled {
+		// the reference point of a cancelled run is the cancel: what was reported until then is in the output, what the
+		// shots still in flight report afterwards may or may not be
+		if nlines+dropped < beforeCancel || nlines+dropped > reported {
+			r.Fail("completeness/engine-cancelled/"+sp.Kind+"/"+cmpWord(nlines+dropped, beforeCancel), "%d samples had been reported when the caller cancelled (%d until the pool finished); the output has %d lines + %d counted dropped", beforeCancel, reported, nlines, dropped)
+		}
+	} else if nlines+dropped != reported {
 		r.Fail("completeness/engine/"+sp.Kind+"/"+cmpWord(nlines+dropped, reported), "the guns reported %d samples before their pool finished; the output has %d lines + %d counted dropped when Engine.Run returned", reported, nlines, dropped)
 	}
 	if o, c := e.disk.OpenCount(sp.Path); o != c {
